@@ -29,6 +29,8 @@ def c13(ctx):
         s = ctx.session(fl)
         r = s.run_seq('c13_wrap_seq', covers=[1])
         ctx.add(tag(r, mode='M1', flavor=fl, sample={'scenario': 'c13_wrap_seq', 'generation': 'symbolic', 'paths': r['paths']}))
+    if ctx.tier != 'quick':
+        conc_run(ctx, SPECS['wrap_conc'], loop_bound=3)
 
 
 def conc_run(ctx, spec, flavor='rel', features=(), **kw):
@@ -86,11 +88,80 @@ SPECS = {
 }
 
 
+def conc_set(ctx, names, **kw):
+    for n in names:
+        conc_run(ctx, SPECS[n], loop_bound=3, **kw)
+
+
+CONC_BOUNDS = {'threads': 2, 'memory_model': 'sequential consistency: ALL interleavings of the extracted atomic and plain accesses',
+               'symbolic_retry_iterations': 3, 'spurious_weak_cas_failures_per_path': 1, 'objects': '4 pool values',
+               'address_reuse': 'off (every allocation gets a fresh address)'}
+CONC_OUTSIDE = ['more than 2 concurrent threads / more operations per thread than listed', 'executions that are not sequentially consistent (stale relaxed reads, store buffering)',
+                'allocator address reuse (ABA through freed addresses)']
+
+
 @prop('C01')
 def c01(ctx):
-    ctx.bounds.update({'threads': 2, 'ops_per_thread': 1, 'loop_bound_symbolic_iterations': 4, 'memory_model': 'SC'})
-    for name in (['a_fast'] if ctx.tier == 'quick' else ['a_fast', 'a_full', 'b_fallback']):
-        conc_run(ctx, SPECS[name], loop_bound=4)
+    ctx.bounds.update(CONC_BOUNDS)
+    ctx.bounds['scenarios'] = 'reader(load|load_full|into_inner) || writer(store): fast slot, 3 debts the writer must pay, fallback path with 8 slots held, guard created on one thread and dropped on another while its creator stores'
+    ctx.outside += CONC_OUTSIDE
+    conc_set(ctx, ['a_fast', 'moved_guard'] if ctx.tier == 'quick' else ['a_fast', 'moved_guard', 'a_full', 'a_keep', 'b_held3', 'b_fallback', 'iso_b'])
+    seq_run(ctx, 'c10_seq_threads')
+
+
+@prop('C02')
+def c02(ctx):
+    ctx.bounds.update(CONC_BOUNDS)
+    ctx.bounds['oracle'] = 'after all threads: every count equals the number of owners, every debt slot of every node is empty'
+    ctx.outside += CONC_OUTSIDE
+    conc_set(ctx, ['a_keep', 'swap2'] if ctx.tier == 'quick' else ['a_keep', 'swap2', 'a_fast', 'a_full', 'b_held3', 'moved_guard', 'cas_aba', 'rcu2'])
+    seq_run(ctx, 'c14_default_2', covers=(1, 2))
+
+
+@prop('C03')
+def c03(ctx):
+    ctx.bounds.update(CONC_BOUNDS)
+    ctx.bounds['oracle'] = 'writer publishes STARTED/DONE progress flags (SeqCst); a load returns a value index between DONE-before-the-call and STARTED-after-it; two loads of one thread never go backwards'
+    ctx.outside += CONC_OUTSIDE
+    conc_set(ctx, ['lin1'] if ctx.tier == 'quick' else ['lin1', 'lin1_fb', 'lin2'])
+
+
+@prop('C04')
+def c04(ctx):
+    ctx.bounds.update(CONC_BOUNDS)
+    ctx.bounds['oracle'] = 'two concurrent swaps / cas+swap+store: every value put in comes out exactly once (returned handle or final content), returned handles own a full reference'
+    ctx.outside += CONC_OUTSIDE
+    conc_set(ctx, ['swap2'] if ctx.tier == 'quick' else ['swap2', 'cas_aba', 'rcu2'])
+
+
+@prop('C05')
+def c05(ctx):
+    ctx.bounds.update({'forms_of_current': ['&Arc', '&Guard', 'Guard', '*const T', '*mut T', 'None / null'], 'values': 'current, expected and new symbolic over a pool of 3 (+None)'})
+    seq_run(ctx, 'c05_forms')
+    seq_run(ctx, 'c05_forms_option')
+    if ctx.tier != 'quick':
+        ctx.bounds.update(CONC_BOUNDS)
+        ctx.outside += CONC_OUTSIDE
+        conc_set(ctx, ['cas_aba'])
+
+
+@prop('C06')
+def c06(ctx):
+    ctx.bounds.update(CONC_BOUNDS)
+    ctx.bounds['oracle'] = 'two concurrent rcu "increments" end at +2, the returned previous values form the chain 0,1; sequential: re-entrant closure, retry (C14/C18 scenarios)'
+    ctx.outside += CONC_OUTSIDE
+    seq_run(ctx, 'c18_rcu', flavor='unw')
+    if ctx.tier != 'quick':
+        conc_set(ctx, ['rcu2'])
+
+
+@prop('C12')
+def c12(ctx):
+    ctx.bounds.update(CONC_BOUNDS)
+    ctx.bounds['scenario'] = 'reader of A on the fallback path (slots full of guards of B) || writer of B walking its node; plus sequential sharing of one value by two containers'
+    ctx.outside += CONC_OUTSIDE
+    seq_run(ctx, 'c12_shared_value')
+    conc_set(ctx, ['iso_b'])
 
 
 def seq_run(ctx, entry, flavor='rel', features=(), covers=(1,), **kw):
